@@ -158,6 +158,7 @@ def onCommit (c : Cluster) (i caller : Nat) (acct : String) : Cluster × Reply :
     | none => (setInst c x, .refused)
     | some s =>
       if s.contributed.length ≠ s.participants.length then (setInst c x, .refused)
+      else if !s.participants.all (fun p => s.contributed.contains p) then (setInst c x, .refused)  -- fix: each listed one
       else if !distributedWallet acct then (setInst c x, .refused)
       else if x.accounts.contains acct then (setInst c x, .refused)
       else (setInst c { (dropSession x acct) with accounts := acct :: x.accounts }, .ok)
@@ -173,6 +174,23 @@ def onAbort (c : Cluster) (i caller : Nat) (acct : String) : Cluster × Reply :=
     | some _ => (setInst c (dropSession x acct), .ok)
 
 def tick (c : Cluster) (d : Nat) : Cluster := { c with now := c.now + d }
+
+/-- which share a contribution reply carries: the one computed for the authenticated caller's own
+    identifier (`generation.distributionSecrets[senderID]`), nothing if none was computed for it -/
+def replyShareFor (s : Session) (caller : Nat) : Option Nat :=
+  if s.participants.contains caller then some caller else none
+
+/-- the contribution handler as shipped at the pinned commit: no vector-length check and no
+    participant check (for the counterexamples only) -/
+def legacyAccepts (valid : Bool) (_vlen _threshold : Nat) (_listed : Bool) : Bool := valid
+
+/-- what the fixed handler accepts -/
+def fixedAccepts (valid : Bool) (vlen threshold : Nat) (listed : Bool) : Bool :=
+  valid && decide (vlen = threshold) && listed
+
+/-- `OnCommit` aggregates every held vector into a threshold-sized array by index: safe only if no
+    held vector is longer than the threshold -/
+def aggregationInRange (threshold : Nat) (vlens : List Nat) : Bool := vlens.all (fun l => decide (l ≤ threshold))
 
 /-! ## client-level generation -/
 
